@@ -14,12 +14,14 @@ import (
 	"hash/fnv"
 	"os"
 	"path/filepath"
+	"runtime"
 	"runtime/debug"
 	"sort"
 	"strconv"
 	"strings"
 	"sync"
 	"testing"
+	"time"
 
 	"pgregory.net/rapid"
 )
@@ -55,6 +57,12 @@ type Spec[C any] struct {
 	Journal bool
 	// Sample optionally maps a case to a smaller value for the evidence samples.
 	Sample func(c C) any
+	// HangTimeout > 0: a case whose Run has not returned after this long, while the
+	// goroutine running it is executing (or blocked) inside github.com/ipfs/boxo, is
+	// reported as a property failure ("does not terminate"). It must be several orders of
+	// magnitude above the normal case duration, so that machine load cannot trigger it.
+	// If the stuck goroutine is not inside boxo the process exits 3 (inconclusive).
+	HangTimeout time.Duration
 }
 
 func (s *Spec[C]) name() string {
@@ -313,6 +321,42 @@ func SafeRun[C any](run func(C) Result, c C) (res Result) {
 	return run(c)
 }
 
+// runGuarded is SafeRun with the optional hang guard of the spec. A hung case cannot be
+// cancelled, so on expiry the verdict is written and the process exits.
+func runGuarded[C any](s *Spec[C], c C, cj []byte) Result {
+	if s.HangTimeout <= 0 {
+		return SafeRun(s.Run, c)
+	}
+	done := make(chan Result, 1)
+	go func() { done <- hangRunner(s.Run, c) }()
+	select {
+	case r := <-done:
+		return r
+	case <-time.After(s.HangTimeout):
+	}
+	buf := make([]byte, 4<<20)
+	buf = buf[:runtime.Stack(buf, true)]
+	inBoxo := false
+	for _, g := range strings.Split(string(buf), "\n\n") {
+		if strings.Contains(g, "kit.hangRunner") {
+			inBoxo = strings.Contains(g, "github.com/ipfs/boxo/")
+			fmt.Printf("kit: case still running after %v; goroutine:\n%s\n", s.HangTimeout, g)
+		}
+	}
+	FlushStats()
+	if !inBoxo {
+		fmt.Printf("kit: stuck goroutine is not inside boxo: inconclusive\n")
+		os.Exit(3)
+	}
+	p := writeFail(s.Prop, s.name(), cj, fmt.Sprintf("case did not terminate within %v (goroutine inside boxo)", s.HangTimeout))
+	fmt.Printf("VERIF-FAIL property=%s check=%s replay=%s\n", s.Prop, s.name(), p)
+	os.Exit(1)
+	return Result{}
+}
+
+//go:noinline
+func hangRunner[C any](run func(C) Result, c C) Result { return SafeRun(run, c) }
+
 // Check drives the spec with rapid. On failure the shrunk case is written to
 // $VERIF_FAIL (or out/<prop>-<name>-fail.json) and "VERIF-FAIL property=.. replay=.." is logged.
 func Check[C any](t *testing.T, s Spec[C]) {
@@ -363,7 +407,7 @@ func Check[C any](t *testing.T, s Spec[C]) {
 			doc, _ := json.Marshal(map[string]any{"property": s.Prop, "check": s.name(), "error": "process died while running this case", "case": json.RawMessage(cj)})
 			os.WriteFile(journal, doc, 0o644)
 		}
-		res := SafeRun(s.Run, c)
+		res := runGuarded(&s, c, cj)
 		if res.Err != nil && res.Known != "" && OpenFinding(s.Prop, res.Known) {
 			statsMu.Lock()
 			st.Excluded[res.Known]++
@@ -453,7 +497,7 @@ func Replay[C any](t *testing.T, s Spec[C]) {
 		if err := json.Unmarshal(d.Case, &c); err != nil {
 			t.Fatalf("replay %s: case does not decode: %v", f, err)
 		}
-		res := SafeRun(s.Run, c)
+		res := runGuarded(&s, c, d.Case)
 		st := getStats(s.Prop, s.name(), s.Rule)
 		statsMu.Lock()
 		st.Classes["replayed"]++
@@ -491,7 +535,7 @@ func RunFindings[C any](t *testing.T, s Spec[C]) {
 		if err := json.Unmarshal(f.Case, &c); err != nil {
 			t.Fatalf("known finding %s/%s: case does not decode: %v", f.Property, f.Key, err)
 		}
-		res := SafeRun(s.Run, c)
+		res := runGuarded(&s, c, f.Case)
 		switch f.Status {
 		case "open":
 			if res.Err != nil {
